@@ -523,6 +523,23 @@ impl Probe {
                 }
             }
         }
+        if want_json {
+            // the parsed query as JSON: what rink-js hands to JavaScript (`getExpr`, which unwraps the result)
+            match guarded(|| {
+                let mut iter = TokenIterator::new(q.trim()).peekable();
+                let query = text_query::parse_query(&mut iter);
+                serde_json::to_string(&query).map(|s| s.len()).map_err(|e| e.to_string())
+            }) {
+                Ok(Ok(_)) => {}
+                Ok(Err(e)) => {
+                    out.insert("query_json_error".into(), json!(e));
+                }
+                Err(mut p) => {
+                    p["phase"] = json!("query_serde_json");
+                    panics.push(p);
+                }
+            }
+        }
         match guarded(|| ctx.previous_result.as_ref().map(num_json)) {
             Ok(p) => {
                 out.insert("prev".into(), json!(p));
